@@ -156,3 +156,15 @@ class KC:
         if d:
             open(os.path.join(d, f'{self.name}-{os.getpid()}-{len(os.listdir(d))}'), 'w').close()
         return ('KC', self.name, tuple(x.result for x in self.deps))
+
+
+@labtech.task(cache=None)
+class KN:      # like KC, but never cached
+    name: str
+    deps: tuple = ()
+
+    def run(self):
+        d = os.environ.get('EXPLORE_EXEC_DIR')
+        if d:
+            open(os.path.join(d, f'{self.name}-{os.getpid()}-{len(os.listdir(d))}'), 'w').close()
+        return ('KN', self.name, tuple(x.result for x in self.deps))
